@@ -264,7 +264,31 @@ class Frame:
         self.contract = contract
         self.module = module
         self.qualname = qualname
-        self.loop_ordinal = 0
+        self.fnode = None
+        self._loop_map = None
+
+    def loop_ordinal_of(self, node):
+        """static ordinal of a loop: position among the for/while statements of the enclosing function (nested defs excluded)"""
+        if self._loop_map is None:
+            self._loop_map = {}
+            if self.fnode is not None:
+                loops = []
+
+                def walk(n):
+                    for ch in ast.iter_child_nodes(n):
+                        if isinstance(ch, (ast.FunctionDef, ast.AsyncFunctionDef, ast.Lambda, ast.ClassDef)):
+                            continue
+                        if isinstance(ch, (ast.For, ast.AsyncFor, ast.While)):
+                            loops.append(ch)
+                        walk(ch)
+
+                walk(self.fnode)
+                loops.sort(key=lambda n: (n.lineno, n.col_offset))
+                for k, n in enumerate(loops):
+                    self._loop_map[id(n)] = k
+        if id(node) not in self._loop_map:
+            self._loop_map[id(node)] = 1000 + len(self._loop_map)
+        return self._loop_map[id(node)]
 
     def lookup(self, name):
         f = self
@@ -504,8 +528,6 @@ class Interp:
         elif isinstance(it, VBytes) and isinstance(it.length(), int) and it.length() <= 64:
             static = self.iter_static(it)
         if static is not None:
-            ordinal = fr.loop_ordinal
-            fr.loop_ordinal += 1
             if isinstance(it, VList):
                 static = list(it.items)
             broke = False
@@ -527,8 +549,7 @@ class Interp:
 
     def loop(self, s, fr, kind, iterable=None):
         ctx = self.ctx
-        ordinal = fr.loop_ordinal
-        fr.loop_ordinal += 1
+        ordinal = fr.loop_ordinal_of(s)
         spec = (fr.contract.loops if fr.contract else {}).get(ordinal)
         if spec is None:
             raise Unsupported(f'loop #{ordinal} at line {s.lineno} of {fr.qualname} has no invariant')
@@ -538,7 +559,9 @@ class Interp:
         if kind == 'for':
             fr.locs[idx_name] = 0
             n_iter = self.seq_len(iterable)
-        # 1. entry
+        # 1. entry (values captured at loop entry are visible to the invariant as ghost names)
+        for name, src in (spec.get('entry_lets') or {}).items():
+            fr.locs[name] = self.spec_eval(src, fr)
         for k, inv in enumerate(spec.get('inv', ())):
             f = self.spec_eval(inv, fr)
             ctx.oblige(f'inv-entry:{tag}:{k}', 'inv-entry', f, inv, s.lineno)
@@ -570,9 +593,11 @@ class Interp:
         hv = spec.get('havoc')
         if hv:
             hv(self, fr, tag)
-        # 3. assume invariant
+        # 3. assume invariant (and the definitional unfoldings of recursive spec functions at this index: fuel 1)
         for inv in spec.get('inv', ()):
             ctx.assume(self.spec_eval(inv, fr))
+        for ax in spec.get('unfold', ()):
+            ctx.assume(self.spec_eval(ax, fr))
         if kind == 'for':
             i = fr.locs[idx_name]
             ctx.assume(z_and(to_z3(i) >= 0, to_z3(i) <= to_z3(n_iter)))
